@@ -70,10 +70,11 @@ def explore_node(ctx, shape, tier, report):
             ctx.node_size_list.append((node, size))
         old_room = w.atom('old_room', ROOMS, 'uid', n=16) if old_room_k else None
         old_key = w.atom('old_key', KEYS, 'bytes', n=33) if old_key_k else None
+        old_mdate = w.i64('old_mdate')
         nti = w.struct('NodeToInsert', id=nid, node=w.opt(node), entity_name=w.opt(name), index=True, old_room_id=w.opt(old_room),
-                       old_mdate=w.i64('old_mdate'), old_verifying_key=w.opt(old_key), old_local_id=none(), old_fts_str=none(), node_fts_str=none())
+                       old_mdate=old_mdate, old_verifying_key=w.opt(old_key), old_local_id=none(), old_fts_str=none(), node_fts_str=none())
         info = dict(part='node', rooms=rooms_ev, owner=owner, max_size=max_size, author=author, mdate=mdate, room=room, name=name,
-                    has_node=has_node, size=size, old_room=old_room, old_key=old_key, nid=nid)
+                    has_node=has_node, size=size, old_room=old_room, old_key=old_key, nid=nid, old_mdate=old_mdate)
         try:
             res = ctx.call(vn, [Ref(Cell(ra)), Ref(Cell(nti))])
         except Panic as p:
@@ -112,15 +113,16 @@ def explore_node(ctx, shape, tier, report):
 
 def scenario_node(ctx, m, kind, info):
     c = Concretizer(m)
-    over = info['has_node'] and bool(z3.is_true(m.eval(z3.UGT(info['size'].z(), info['max_size'].z()), model_completion=True)))
+    rel = size_relation(m, info['size'], info['max_size']) if info['has_node'] else 'lt'
+    over = rel == 'gt' 
     room = None if info['room'] is None else c.atom(info['room'], 'room')
     sc = dict(kind='validate_node', property='C02', rooms=[c.room(ev) for ev in info['rooms']], caller=c.atom(info['owner'], 'key'),
-              max_node_size=400 if over else 1 << 40, id=c.atom(info['nid'], 'uid'),
+              size_rel=rel, id=c.atom(info['nid'], 'uid'),
               node=None if not info['has_node'] else dict(room=room, cdate=0, mdate=c.int(info['mdate']), short='9.9', author=c.atom(info['author'], 'key'),
-                                                         json=('{"pad":"%s"}' % ('x' * 600)) if over else '{}'),
+                                                         json='{}'),
               entity_name=None if info['name'] is None else c.atom(info['name'], 'ent'),
               old_room=None if info['old_room'] is None else c.atom(info['old_room'], 'room'),
-              old_key=None if info['old_key'] is None else c.atom(info['old_key'], 'key'))
+              old_key=None if info['old_key'] is None else c.atom(info['old_key'], 'key'), old_mdate=c.int(info['old_mdate']))
     if kind == 'sample':
         return sc
     if kind == 'panic':
@@ -131,8 +133,8 @@ def scenario_node(ctx, m, kind, info):
     if not info['has_node'] or info['room'] is None or info['name'] is None:
         roles.append('incomplete-row')
     else:
-        if over:
-            roles.append('oversized-row')
+        if rel != 'lt':
+            roles.append('size-' + rel)
         self_right = True if info['old_key'] is None else ev(seq(info['old_key'], info['author']))
         wch = 'self' if self_right else 'all'
         if not ev(granted_in(info['rooms'], info['room'], info['author'], info['name'], info['mdate'], wch)):
